@@ -264,6 +264,7 @@ class Dict(Ty):
                 "dict%d" % u,
                 ("dom%d" % u, z3.ArraySort(self.k.sort(), z3.BoolSort())),
                 ("map%d" % u, z3.ArraySort(self.k.sort(), self.v.sort())),
+                ("size%d" % u, z3.IntSort()),
             )
             _sort_cache[key] = d.create()
         return _sort_cache[key]
@@ -277,11 +278,32 @@ class Dict(Ty):
     def map(self, term):
         return getattr(self.sort(), "map%d" % self._u())(term)
 
-    def mk(self, dom, mp):
-        return getattr(self.sort(), "dict%d" % self._u())(dom, mp)
+    def size(self, term):
+        return getattr(self.sort(), "size%d" % self._u())(term)
+
+    def mk(self, dom, mp, size):
+        return getattr(self.sort(), "dict%d" % self._u())(dom, mp, size)
 
     def empty(self):
-        return self.mk(z3.K(self.k.sort(), z3.BoolVal(False)), z3.K(self.k.sort(), _default_term(self.v)))
+        return self.mk(z3.K(self.k.sort(), z3.BoolVal(False)), z3.K(self.k.sort(), _default_term(self.v)), z3.IntVal(0))
+
+    def put(self, term, k, v):
+        """d[k] = v"""
+        has = z3.Select(self.dom(term), k)
+        return self.mk(z3.Store(self.dom(term), k, True), z3.Store(self.map(term), k, v), z3.If(has, self.size(term), self.size(term) + 1))
+
+    def remove(self, term, k):
+        """del d[k] (k present or not)"""
+        has = z3.Select(self.dom(term), k)
+        return self.mk(z3.Store(self.dom(term), k, False), self.map(term), z3.If(has, self.size(term) - 1, self.size(term)))
+
+    def wellformed(self, term):
+        # len(d) is carried explicitly: non-negative, zero exactly when no key is present (one direction triggered on dom[k])
+        k = z3.Const("wf_k!%s" % _sname(self), self.k.sort())
+        dom = self.dom(term)
+        out = [self.size(term) >= 0,
+               z3.ForAll([k], z3.Implies(z3.Select(dom, k), self.size(term) >= 1), patterns=[z3.Select(dom, k)])]
+        return out
 
 
 class Rec(Ty):
